@@ -1058,6 +1058,12 @@ def run(tier, seed, model_ok, translator, search=False):
                         case.get("how"), ans.get("exc", "accepts") if isinstance(ans, dict) else "?",
                         impl.get("exc", "accepts") if isinstance(impl, dict) else "?"))
                     continue
+                if what == "to_json_serializable" and isinstance(ans, dict) and ans.get("exc") == "NotImplementedError" \
+                        and isinstance(impl, dict) and "ok" in impl:
+                    # a value of a type outside JsonData's precursor types (tuple, date, path, …): today refused
+                    # with NotImplementedError; a library that converts it instead is outside the statement
+                    out.count("a:value type outside the precursor types is converted, not refused")
+                    continue
                 out.mismatch(f"{what}: pdtable vs Lean model", case, impl, ans)
     return out
 
